@@ -28,6 +28,14 @@ func FuzzC08Raw(f *testing.F) {
 		}
 		name := names[int(fi)%len(names)]
 		c := HostileCase{Cfg: Cfg{Format: name, PT: 96, Max: 1460}, Mode: "stab"}
+		// decoders are configured as a description the library accepts would configure them (a zero sizelength is refused
+		// by the SDP parser; a decoder built by hand with it loops forever, which is the caller's doing)
+		switch name {
+		case "mpeg4audio":
+			c.Cfg.Params = mpeg4audioParams[int(split)%len(mpeg4audioParams)]
+		case "lpcm":
+			c.Cfg.Params = Params{BitDepth: 16, Channels: 2}
+		}
 		// cut the input into packets of split+1 .. bytes; the first byte of each piece decides the marker
 		step := int(split)%200 + 1
 		for off := 0; off < len(data) && len(c.Ops) < 64; off += step {
